@@ -137,8 +137,8 @@ def gen_op(rng, state):
     names = sorted(m["params"])
     op = rng.choices(
         ["set_values", "set_lower", "set_upper", "set_fixed", "set_label", "reset1", "reset_all", "copy", "deepcopy", "copy_circuit",
-         "text", "set_default", "refused", "sub_edit", "mutate_returned"],
-        [3, 3.5, 3.5, 1.5, 1, 1.5, 1.2, 1.5, 1.5, 1, 1.5, 1, 2.5, 1.0, 0.8],
+         "text", "set_default", "refused", "sub_edit", "mutate_returned", "reparse"],
+        [3, 3.5, 3.5, 1.5, 1, 1.5, 1.2, 1.5, 1.5, 1, 1.5, 1, 2.5, 1.0, 0.8, 0.9],
     )[0]
     if not names and op in ("set_values", "set_lower", "set_upper", "set_fixed", "reset1", "set_default", "refused"):
         op = "copy"
@@ -168,6 +168,10 @@ def gen_op(rng, state):
         return {"op": op, "slot": i, "how": rng.choice(["copy", "deepcopy"]), "wrapper": rng.choice(["series", "parallel"])}
     if op == "text":
         return {"op": "text_restart", "slot": i}
+    if op == "reparse":
+        # a text that was parsed earlier in this history is parsed again: what happened to the objects of
+        # the first parse since then must not show in the second
+        return {"op": "reparse", "slot": i, "which": rng.randrange(6)}
     if op == "set_default":
         # a new class default inside the class's default limits (a default outside them is not a state the statement speaks about)
         k = rng.choice(names)
@@ -440,8 +444,27 @@ def apply(state, rec):
                 if r:
                     return _viol("text-restart-differs", rec, f"parse_cdc({text!r}) reads back differently: {r}")
                 _push(state, c, _copy.deepcopy(m))
+                texts = state.setdefault("texts", [])
+                texts.append({"text": text, "model": _copy.deepcopy(m), "cm": dict(state["cmodel"][m["sym"]])})
+                if len(texts) > 6:
+                    texts.pop(0)
             else:
                 _push(state, c, _adopt(c, m["sym"]))
+    elif op == "reparse":
+        texts = state.get("texts") or []
+        if not texts:
+            return None
+        t = texts[rec["which"] % len(texts)]
+        if state["cmodel"][t["model"]["sym"]] != t["cm"]:
+            return None  # the class defaults changed in between; the first parse is no reference any more
+        stats["restarts"]["text_parsed_again"] += 1
+        try:
+            c = pyimpspec.parse_cdc(t["text"]).get_elements(recursive=False)[0]
+        except Exception as e:
+            return _viol("text-restart-differs", rec, f"parse_cdc({t['text']!r}) succeeded earlier in this history and now raises {type(e).__name__}: {e}")
+        r = _compare(c, t["model"])
+        if r:
+            return _viol("text-restart-differs", rec, f"parse_cdc({t['text']!r}) read back correctly earlier in this history and now reads back differently: {r}")
     elif op == "set_default":
         k = rec["key"]
         if k not in params:
